@@ -11,7 +11,7 @@ from ckl.errors import (
     CklSyntaxError,
     CklRuntimeError
 )
-from ckl.interpreter import Interpreter, render, render_error
+from ckl.interpreter import Interpreter, render, render_error, show
 
 
 def main():
@@ -47,12 +47,12 @@ def main():
     try:
         result = interpreter.interpret(script, args.script)
         if result != NULL:
-            print(render(result))
+            show(render(result))
     except CklRuntimeError as e:
         for line in render_error(e):
-            print(line)
+            show(line)
     except CklSyntaxError as e:
-        print(e.msg + ((" (Line " + str(e.pos) + ")") if e.pos else ""))
+        show(e.msg + ((" (Line " + str(e.pos) + ")") if e.pos else ""))
 
 
 if __name__ == "__main__":
